@@ -236,4 +236,73 @@ theorem resolve_absent (hashes : List Nat) (t : Tab) (full : Nat) (hn : full ∉
   simp only [decide_eq_true_eq] at hc
   exact hn (List.mem_of_getElem? hc)
 
+def freeCount (t : Tab) : Nat := t.slots.count FREE
+
+theorem insertAt_some_of_free (t : Tab) (n i : Nat) (seq : List Nat) (h : ∃ p ∈ seq, t.slots[p]? = some FREE) :
+    ∃ t', insertAt t n i seq = some t' := by
+  induction seq with
+  | nil => obtain ⟨p, hp, _⟩ := h; simp at hp
+  | cons q rest ih =>
+    simp only [insertAt]
+    split
+    · exact ⟨_, rfl⟩
+    · rename_i hq
+      apply ih
+      obtain ⟨p, hp, hpf⟩ := h
+      rcases List.mem_cons.1 hp with rfl | hp
+      · exact absurd hpf hq
+      · exact ⟨p, hp, hpf⟩
+
+theorem exists_free_of_count (l : List Nat) (h : 0 < l.count FREE) : ∃ p, p < l.length ∧ l[p]? = some FREE := by
+  have hm : FREE ∈ l := List.count_pos_iff.1 h
+  obtain ⟨p, hp, he⟩ := List.getElem_of_mem hm
+  exact ⟨p, hp, by simp [hp, he]⟩
+
+theorem insert_some (t : Tab) (full i : Nat) (h : 0 < freeCount t) : ∃ t', insert t full i = some t' := by
+  obtain ⟨p, hp, hf⟩ := exists_free_of_count t.slots h
+  exact insertAt_some_of_free t _ _ _ ⟨p, probeSeq_mem _ _ p hp, hf⟩
+
+theorem insert_freeCount (t t' : Tab) (full i : Nat) (h : insert t full i = some t') : freeCount t' + 1 = freeCount t := by
+  obtain ⟨p, hp, rfl⟩ := insertAt_spec t _ _ _ _ h
+  have hpl : p < t.slots.length := by
+    rcases Nat.lt_or_ge p t.slots.length with h' | h'
+    · exact h'
+    · rw [List.getElem?_eq_none h'] at hp; cases hp
+  have hv : t.slots[p] = FREE := by rw [List.getElem?_eq_getElem hpl] at hp; exact Option.some.inj hp
+  unfold freeCount
+  simp only
+  rw [List.count_set hpl]
+  have hne : (nameHash1 full == FREE) = false := by simpa using nameHash1_ne_free full
+  have hpos : 0 < t.slots.count FREE := List.count_pos_iff.2 (hv ▸ List.getElem_mem hpl)
+  simp [hv, hne]
+  omega
+
+/-- the builder's table never fills up: with more free slots than files left, every insertion succeeds -/
+theorem buildFrom_some (t : Tab) (k : Nat) (hs : List Nat) (h : hs.length ≤ freeCount t) : ∃ t', buildFrom t k hs = some t' := by
+  induction hs generalizing t k with
+  | nil => exact ⟨t, rfl⟩
+  | cons a rest ih =>
+    simp only [List.length_cons] at h
+    obtain ⟨t1, h1⟩ := insert_some t a k (by omega)
+    have := insert_freeCount t t1 a k h1
+    simp only [buildFrom, h1]
+    exact ih t1 (k + 1) (by omega)
+
+theorem le_nextPow2 (f p n : Nat) (hp : 0 < p) (h : n ≤ p + f) : n ≤ nextPow2 f p n := by
+  induction f generalizing p with
+  | zero => simpa [nextPow2] using h
+  | succ f ih =>
+    simp only [nextPow2]
+    split
+    · exact ih (p * 2) (by omega) (by omega)
+    · omega
+
+/-- THE BUILDER ALWAYS COMPLETES THE EXTENDED HASH TABLE: `2·count` rounded up to a power of two leaves room for every file -/
+theorem build_some (hashes : List Nat) : ∃ t, build hashes = some t := by
+  unfold build
+  apply buildFrom_some
+  simp only [freeCount, init, List.count_replicate_self, tableSize]
+  have := le_nextPow2 (2 * hashes.length) 1 (2 * hashes.length) (by decide) (by omega)
+  omega
+
 end Wv.Het
